@@ -68,7 +68,7 @@ BadLits  == {"litNoNum", "litNoCRLF", "litOver", "litNeg", "litPlus", "litUnclos
 MboxGood == {"INBOX", "aBox", "qInbox", "qBox", "lit3", "qUtf7"}
 FlagGood == {"fSeen", "fAnswered", "fDeleted", "fFlagged", "fDraft", "fRecent", "fX", "kwA", "kwFwd"}
 AttrGood == {"fNoselect", "fHasChildren", "fHasNoChildren", "fSubscribed", "fNonExistent", "fSent", "fX"}
-CapGood  == {"IMAP4rev1", "IMAP4rev2", "IDLE", "LITERAL-", "CONDSTORE", "aAuthPlain", "MOVE", "UIDPLUS"}
+CapGood  == {"IMAP4rev1", "IMAP4rev2", "IDLE", "LITERAL-", "CONDSTORE", "aAuthPlain", "MOVE", "UIDPLUS", "METADATA"}
 
 RawNest == {NT("Nlp", d) : d \in (Depths \ {1}) \cup {1000000}}
 Fams    == {"mp", "msg", "thr", "val"}
@@ -83,7 +83,8 @@ NumClasses == {"n32", "nz32", "seq", "uid", "n64", "mseq"}
 StrClasses == {"str", "nstr", "astr", "mbox"}
 OpenClasses  == {"o" \o f : f \in Fams}
 CloseClasses == {"c" \o f : f \in Fams}
-SlotClasses == {"f", "set", "flag", "pflag", "attr", "cap", "lp"} \cup NumClasses \cup StrClasses
+IgnClasses == {"ign32", "istr", "lpi"}     \* data this client API does not hand to the caller (see below)
+SlotClasses == {"f", "set", "flag", "pflag", "attr", "cap", "lp"} \cup NumClasses \cup StrClasses \cup IgnClasses
                  \cup OpenClasses \cup CloseClasses
 FamTab == TLCEval([c \in OpenClasses \cup CloseClasses |-> CHOOSE f \in Fams : c = "o" \o f \/ c = "c" \o f])
 FamOf(c) == FamTab[c]
@@ -104,11 +105,19 @@ GoodDef(c) ==
     [] c = "attr" -> AttrGood
     [] c = "cap"  -> CapGood
     [] c = "lp"   -> {"LP"}
+    [] c = "ign32" -> NumSmall \cup {"nM32"}
+    [] c = "istr" -> StrGood \cup {"aBox", "aRoot"}
+    [] c = "lpi"  -> {"LP"}
     [] c \in OpenClasses  -> {OpenTok(FamOf(c), d) : d \in {d \in Depths : d <= Shallow}}
     [] c \in CloseClasses -> {CloseTok(FamOf(c), d) : d \in Depths}
     [] OTHER -> {}
 
-\* tokens that violate an invariant the property names, in a slot of class c
+\* tokens that violate an invariant the property names, in a slot of class c.
+\* The statement is about data "delivered to the caller": slots whose content this
+\* client API has no field for (the RECENT count, the UNSEEN and BADCHARSET codes,
+\* unknown STATUS items, NAMESPACE / LIST / ESEARCH / body-structure extension data)
+\* have the classes ign32 / istr / lpi / oval with no bad tokens: a client may skip
+\* them without looking.  The monitors (panic, recursion, resources) still apply.
 BadDef(c) ==
   CASE c \in {"n32", "nz32"} -> Over32                       \* overflow of a 32-bit number
     [] c \in {"seq", "uid"}  -> {"n0"} \cup Over32            \* zero in a result, overflow
@@ -117,7 +126,8 @@ BadDef(c) ==
     [] c = "set"  -> SetDyn \cup SetZero \cup SetMal
     [] c \in StrClasses -> BadLits
     [] c = "lp"   -> {t \in RawNest : DepthOf[t] > Cap}
-    [] c \in OpenClasses -> {OpenTok(FamOf(c), d) : d \in {d \in Depths : d > Cap}}
+    \* nested values ("val") occur only in data the API discards: nothing is demanded
+    [] c \in OpenClasses \ {"oval"} -> {OpenTok(FamOf(c), d) : d \in {d \in Depths : d > Cap}}
     [] OTHER -> {}
 
 \* tables (evaluated once)
@@ -150,6 +160,7 @@ RECURSIVE Cat(_)          \* fragments without separator
 Cat(fs) == IF Len(fs) = 0 THEN <<>> ELSE fs[1] \o Cat(Tail(fs))
 W(ws)  == J([i \in 1..Len(ws) |-> F(ws[i])])        \* fixed words separated by SP
 P(fr)  == V("lp", "LP") \o fr \o F("RP")             \* parenthesised; the '(' is a nesting slot
+Pi(fr) == V("lpi", "LP") \o fr \o F("RP")            \* parenthesised, inside data the API discards
 PJ(fs) == P(J(fs))
 Un(fr) == F("STAR") \o sp \o fr \o F("CRLF")         \* untagged response
 Tgd(fr) == F("CTAG") \o sp \o fr \o F("CRLF")         \* tagged completion of the pending command
@@ -287,7 +298,7 @@ Bases ==
     B("greeting", "greeting.plain",   Un(StatusOf("OK", <<>>, "TXT2"))),
   \* unsolicited data in selected state (NOOP pending, unilateral data handler installed)
     BN("unsol", "unsol.exists",  Un(J(<<V("n32", "n3"), F("EXISTS")>>))),
-    BN("unsol", "unsol.recent",  Un(J(<<V("n32", "n2"), F("RECENT")>>))),
+    BN("unsol", "unsol.recent",  Un(J(<<V("ign32", "n2"), F("RECENT")>>))),
     BN("unsol", "unsol.expunge", Un(J(<<V("seq", "n1"), F("EXPUNGE")>>))),
     B("unsol", "unsol.flags",    Un(J(<<F("FLAGS"), FlagsL>>))),
     B("unsol", "unsol.flags0",   Un(J(<<F("FLAGS"), Empty>>))),
@@ -298,7 +309,7 @@ Bases ==
     B("unsol", "unsol.no",       Un(StatusOf("NO", <<>>, "TXT"))),
     B("unsol", "unsol.bad",      Un(StatusOf("BAD", <<>>, "TXT2"))),
     B("unsol", "unsol.bye",      Un(StatusOf("BYE", <<>>, "TXT"))),
-    B("unsol", "unsol.code.unseen",  Un(StatusOf("OK", J(<<F("UNSEEN"), V("nz32", "n3")>>), "TXT"))),
+    B("unsol", "unsol.code.unseen",  Un(StatusOf("OK", J(<<F("UNSEEN"), V("ign32", "n3")>>), "TXT"))),
     B("unsol", "unsol.code.uidnext", Un(StatusOf("OK", J(<<F("UIDNEXT"), V("nz32", "n7")>>), "TXT"))),
     B("unsol", "unsol.code.uidvalidity", Un(StatusOf("OK", J(<<F("UIDVALIDITY"), V("nz32", "n42")>>), "TXT"))),
     B("unsol", "unsol.code.permflags", Un(StatusOf("OK", J(<<F("PERMANENTFLAGS"), PFlagsL>>), "TXT"))),
@@ -311,7 +322,7 @@ Bases ==
     B("unsol", "unsol.code.parse",   Un(StatusOf("OK", F("PARSE"), "TXT2"))),
     B("unsol", "unsol.code.capability", Un(StatusOf("OK", J(<<F("CAPABILITY"), Caps2>>), "TXT"))),
     B("unsol", "unsol.code.copyuid", Un(StatusOf("OK", CopyUid, "TXT"))),
-    B("unsol", "unsol.code.badcharset", Un(StatusOf("NO", J(<<F("BADCHARSET"), PJ(<<V("astr", "aBox"), V("astr", "qA")>>)>>), "TXT"))),
+    B("unsol", "unsol.code.badcharset", Un(StatusOf("NO", J(<<F("BADCHARSET"), Pi(J(<<V("istr", "aBox"), V("istr", "qA")>>))>>), "TXT"))),
     B("unsol", "unsol.code.unknown", Un(StatusOf("OK", J(<<F("aX"), F("TXT"), F("TXT")>>), "TXT"))),
     B("unsol", "unsol.code.overquota", Un(StatusOf("NO", F("OVERQUOTA"), "TXT"))),
     B("unsol", "unsol.code.alreadyexists", Un(StatusOf("NO", F("ALREADYEXISTS"), "TXT"))),
@@ -332,11 +343,11 @@ Bases ==
   \* SELECT
     B("select", "select.flags",  Un(J(<<F("FLAGS"), FlagsL>>))),
     BN("select", "select.exists", Un(J(<<V("n32", "n3"), F("EXISTS")>>))),
-    BN("select", "select.recent", Un(J(<<V("n32", "n0"), F("RECENT")>>))),
+    BN("select", "select.recent", Un(J(<<V("ign32", "n0"), F("RECENT")>>))),
     B("select", "select.permflags", Un(StatusOf("OK", J(<<F("PERMANENTFLAGS"), PFlagsL>>), "TXT"))),
     B("select", "select.uidnext", Un(StatusOf("OK", J(<<F("UIDNEXT"), V("nz32", "n7")>>), "TXT"))),
     B("select", "select.uidvalidity", Un(StatusOf("OK", J(<<F("UIDVALIDITY"), V("nz32", "nM32")>>), "TXT"))),
-    B("select", "select.unseen", Un(StatusOf("OK", J(<<F("UNSEEN"), V("nz32", "n2")>>), "TXT"))),
+    B("select", "select.unseen", Un(StatusOf("OK", J(<<F("UNSEEN"), V("ign32", "n2")>>), "TXT"))),
     B("select", "select.hms",    Un(StatusOf("OK", J(<<F("HIGHESTMODSEQ"), V("mseq", "nM63")>>), "TXT"))),
     B("select", "select.nomodseq", Un(StatusOf("OK", F("NOMODSEQ"), "TXT"))),
     B("select", "select.list",   Un(ListOf(Empty, F("qSlash"), V("mbox", "INBOX")))),
@@ -346,7 +357,7 @@ Bases ==
                                  \o Un(StatusOf("OK", J(<<F("PERMANENTFLAGS"), PFlagsL>>), "TXT"))),
   \* CAPABILITY, ENABLE, LOGIN
     B("capability", "capability.data", Un(J(<<F("CAPABILITY"), Caps3>>))),
-    B("enable", "enable.one",    Un(J(<<F("ENABLED"), V("cap", "CONDSTORE")>>))),
+    B("enable", "enable.one",    Un(J(<<F("ENABLED"), V("cap", "METADATA")>>))),
     B("enable", "enable.none",   Un(F("ENABLED"))),
     B("login", "login.cap",      Tgd(StatusOf("OK", J(<<F("CAPABILITY"), Caps2>>), "TXT"))),
     BS("login", "login.no", "NO", Tgd(StatusOf("NO", F("AUTHENTICATIONFAILED"), "TXT"))),
@@ -369,7 +380,7 @@ Bases ==
     B("status", "status.all",   Un(J(<<F("STATUS"), V("mbox", "INBOX"), StatusAll>>))),
     B("status", "status.applimit", Un(J(<<F("STATUS"), V("mbox", "qInbox"), PJ(<<F("APPENDLIMIT"), V("n32", "n100")>>)>>))),
     B("status", "status.empty", Un(J(<<F("STATUS"), V("mbox", "INBOX"), Empty>>))),
-    B("status", "status.recent", Un(J(<<F("STATUS"), V("mbox", "INBOX"), PJ(<<F("RECENT"), V("n32", "n0"), F("MESSAGES"), V("n32", "n1")>>)>>)))>>
+    B("status", "status.recent", Un(J(<<F("STATUS"), V("mbox", "INBOX"), PJ(<<F("RECENT"), V("ign32", "n0"), F("MESSAGES"), V("n32", "n1")>>)>>)))>>
   \* SEARCH / ESEARCH / SORT / THREAD
   \o SearchBases("search", "seq") \o SearchBases("uidsearch", "uid")
   \o ESearchBases("esearch", "seq", FALSE) \o ESearchBases("uidesearch", "uid", TRUE)
@@ -406,7 +417,7 @@ Bases ==
        B("namespace", "namespace.nil",   Un(J(<<F("NAMESPACE"), F("NIL"), F("NIL"), F("NIL")>>))),
        B("namespace", "namespace.nildelim", Un(J(<<F("NAMESPACE"), P(PJ(<<V("str", "qEmpty"), F("NIL")>>)), F("NIL"), F("NIL")>>))),
        B("namespace", "namespace.ext",   Un(J(<<F("NAMESPACE"),
-                                                P(PJ(<<V("str", "qEmpty"), F("qSlash"), V("str", "qXEXT"), PJ(<<V("str", "qA"), V("str", "qB")>>)>>)),
+                                                P(PJ(<<V("str", "qEmpty"), F("qSlash"), V("istr", "qXEXT"), Pi(J(<<V("istr", "qA"), V("istr", "qB")>>))>>)),
                                                 F("NIL"), F("NIL")>>)))>>
   \* FETCH (by sequence number, by UID, as the answer to STORE)
   \o FetchBases("fetch") \o FetchBases("uidfetch")
@@ -446,28 +457,33 @@ Balanced(bt, toks) ==
      bt[i].s \in OpenClasses =>
         \A j \in 1..Len(bt) : (bt[j].s = "c" \o FamOf(bt[i].s)) => DepthOf[toks[i]] = DepthOf[toks[j]]
 
-\* verdict of one base on a line: <<class, why>>
+\* verdict of one base on a line: <<class, why>>, given the first position j whose token
+\* is not good for its slot
+VerdictAt(b, toks, j) ==
+  LET bt == b.toks IN
+  IF j = 0
+    THEN IF Len(bt) = Len(toks) /\ Balanced(bt, toks) THEN <<"D", "">> ELSE <<"X", "">>
+  ELSE IF BadAt(bt[j], toks[j])
+          /\ (j >= b.commit \/ (Len(toks) >= b.commit /\ FirstNot(bt, toks, j + 1, b.commit) = 0))
+    THEN <<"E", Why(bt[j].s, toks[j])>>
+  ELSE <<"X", "">>
+
+\* (TLC re-evaluates LET definitions on every use; binding through a singleton set
+\* evaluates once)
 Verdict(b, toks) ==
-  LET bt == b.toks
-      n  == Min(Len(bt), Len(toks))
-      j  == FirstNot(bt, toks, 1, n)
-  IN IF j = 0
-       THEN IF Len(bt) = Len(toks) /\ Balanced(bt, toks) THEN <<"D", "">> ELSE <<"X", "">>
-     ELSE IF BadAt(bt[j], toks[j])
-             /\ (j >= b.commit \/ (Len(toks) >= b.commit /\ FirstNot(bt, toks, j + 1, b.commit) = 0))
-       THEN <<"E", Why(bt[j].s, toks[j])>>
-     ELSE <<"X", "">>
+  CHOOSE r \in {VerdictAt(b, toks, j) : j \in {FirstNot(b.toks, toks, 1, Min(Len(b.toks), Len(toks)))}} : TRUE
 
 Verdicts(k, toks) == IF k \in Kinds THEN {<<i, Verdict(Bases[i], toks)>> : i \in ByKind[k]} ELSE {}
 
-\* [c: class, w: why, b: index of a base that decides (0 for X)]
-Classify(k, toks) ==
-  LET vs == Verdicts(k, toks)
-      ds == {v \in vs : v[2][1] = "D"}
+\* [c: class, w: why, b: index of a base that decides (0 for X), amb: both D and E apply]
+ClassFrom(vs) ==
+  LET ds == {v \in vs : v[2][1] = "D"}
       es == {v \in vs : v[2][1] = "E"}
-  IN IF ds # {} THEN LET v == CHOOSE v \in ds : TRUE IN [c |-> "D", w |-> "", b |-> v[1], amb |-> es # {}]
+  IN IF ds # {} THEN [c |-> "D", w |-> "", b |-> (CHOOSE v \in ds : TRUE)[1], amb |-> es # {}]
      ELSE IF es # {} THEN LET v == CHOOSE v \in es : \A u \in es : v[1] <= u[1] IN [c |-> "E", w |-> v[2][2], b |-> v[1], amb |-> FALSE]
      ELSE [c |-> "X", w |-> "", b |-> 0, amb |-> FALSE]
+
+Classify(k, toks) == CHOOSE r \in {ClassFrom(vs) : vs \in {Verdicts(k, toks)}} : TRUE
 
 \* ------------------------------------------------------------------ mutations
 \* the mutation alphabet ("replace by any token of the alphabet")
@@ -498,8 +514,14 @@ TargetSeq(c) ==
                            "s0", "s0to3", "s1to0", "s1c0", "sOver", "sOverR", "sColon", "sCommas", "s20d", "DOLLAR">>
   ELSE IF c \in StrClasses THEN <<"litNoNum", "litNoCRLF", "litOver", "litNeg", "litPlus", "litUnclosed", "litAlpha",
                                   "litShort", "litBig", "lit0", "qLong", "NIL">>
-  ELSE IF c = "lp" THEN <<"Nlp_10", "Nlp_999", "Nlp_1000", "Nlp_1001", "Nlp_100000", "Nlp_1000000">>
+  ELSE IF c \in {"lp", "lpi"} THEN <<"Nlp_10", "Nlp_999", "Nlp_1000", "Nlp_1001">>
   ELSE <<>>
+\* '('^d far beyond the cap, in every slot that opens a list or body; in the quick tier
+\* a quarter-stride sample of the slots (an unbounded-recursion probe is always part of
+\* the harness' resource families)
+DeepSeq(c) == IF c \in {"lp", "lpi"} THEN <<"Nlp_100000", "Nlp_1000000">> ELSE <<>>
+DeepStride == IF Stride < 8 THEN 1 ELSE Stride \div 8
+KeepDeep(bi, i) == DeepStride = 1 \/ ((bi * 131 + i * 31) % DeepStride) = (Seed % DeepStride)
 
 Drop(s, i)   == SubSeq(s, 1, i - 1) \o SubSeq(s, i + 1, Len(s))
 Dup(s, i)    == SubSeq(s, 1, i) \o SubSeq(s, i, Len(s))
@@ -534,7 +556,10 @@ Singles(bi, i) ==
        \cup (IF i < L /\ Keep(bi, i, 4, 0) THEN {Mut("swap", i, "", 0, "")} ELSE {})
        \cup {Mut("rep", i, AlphaSeq[k], 0, "") : k \in {k \in 1..Len(AlphaSeq) : AlphaSeq[k] # s[i] /\ Keep(bi, i, 5, k)}}
        \cup {Mut("rep", i, tg[k], 0, "") : k \in {k \in 1..Len(tg) : tg[k] # s[i]}}
-       \cup (IF c = "lp" THEN {Mut("cut", i, tg[k], 0, "") : k \in 1..Len(tg)} ELSE {})
+       \cup (IF c \in {"lp", "lpi"} THEN {Mut("cut", i, tg[k], 0, "") : k \in 1..Len(tg)} ELSE {})
+       \cup (IF KeepDeep(bi, i) THEN {Mut("rep", i, DeepSeq(c)[k], 0, "") : k \in 1..Len(DeepSeq(c))}
+                                      \cup {Mut("cut", i, DeepSeq(c)[k], 0, "") : k \in 1..Len(DeepSeq(c))}
+                                 ELSE {})
        \cup (IF c \in OpenClasses
                THEN LET f == FamOf(c)  j == CHOOSE j \in 1..L : b.toks[j].s = "c" \o f IN
                     {Mut("nest", i, OpenTok(f, d), j, CloseTok(f, d)) : d \in Depths \ {1}}
